@@ -630,12 +630,14 @@ inline P make(const Case& rc) {
     }
     case F_HLL: obj.reset(new HllObj(hll_sketch(static_cast<uint8_t>(4 + a % 9), static_cast<target_hll_type>(b % 3), (c & 3) == 3))); break;
     case F_CPC: obj.reset(new CpcObj(cpc_sketch(static_cast<uint8_t>(4 + a % 9), seed), seed)); break;
-    case F_KLL_F: { int k = 8 + static_cast<int>(a % 60); obj.reset(new QObj<KllF, float, std::less<float>, 0>(KllF(static_cast<uint16_t>(k)), k, false)); break; }
-    case F_KLL_S: { int k = 8 + static_cast<int>(a % 60); obj.reset(new QObj<KllS, std::string, GreaterLen, 0>(KllS(static_cast<uint16_t>(k)), k, false)); break; }
-    case F_REQ_F: { int k = 4 + 2 * static_cast<int>(a % 6); obj.reset(new QObj<ReqF, float, std::less<float>, 1>(ReqF(static_cast<uint16_t>(k), b & 1), k, b & 1)); break; }
-    case F_REQ_S: { int k = 4 + 2 * static_cast<int>(a % 6); obj.reset(new QObj<ReqS, std::string, GreaterLen, 1>(ReqS(static_cast<uint16_t>(k), b & 1), k, b & 1)); break; }
-    case F_QS_F: { int k = 2 << (a % 6); obj.reset(new QObj<QsF, float, std::less<float>, 2>(QsF(static_cast<uint16_t>(k)), k, false)); break; }
-    case F_QS_S: { int k = 2 << (a % 6); obj.reset(new QObj<QsS, std::string, GreaterLen, 2>(QsS(static_cast<uint16_t>(k)), k, false)); break; }
+    // recipe key "bk" (quantile families, absent in the frozen corpus recipes): a large k, so that one level holds thousands of items
+    // (readers that take the items in steps, buffers beyond the first allocation unit)
+    case F_KLL_F: if (rc.get("bk", 0) & 1) { int k = 1000 + static_cast<int>(a % 3000); obj.reset(new QObj<KllF, float, std::less<float>, 0>(KllF(static_cast<uint16_t>(k)), k, false)); break; } { int k = 8 + static_cast<int>(a % 60); obj.reset(new QObj<KllF, float, std::less<float>, 0>(KllF(static_cast<uint16_t>(k)), k, false)); break; }
+    case F_KLL_S: if (rc.get("bk", 0) & 1) { int k = 1000 + static_cast<int>(a % 3000); obj.reset(new QObj<KllS, std::string, GreaterLen, 0>(KllS(static_cast<uint16_t>(k)), k, false)); break; } { int k = 8 + static_cast<int>(a % 60); obj.reset(new QObj<KllS, std::string, GreaterLen, 0>(KllS(static_cast<uint16_t>(k)), k, false)); break; }
+    case F_REQ_F: if (rc.get("bk", 0) & 1) { int k = (a & 1) ? 1024 : 700 + 2 * static_cast<int>(a % 150); obj.reset(new QObj<ReqF, float, std::less<float>, 1>(ReqF(static_cast<uint16_t>(k), b & 1), k, b & 1)); break; } { int k = 4 + 2 * static_cast<int>(a % 6); obj.reset(new QObj<ReqF, float, std::less<float>, 1>(ReqF(static_cast<uint16_t>(k), b & 1), k, b & 1)); break; }
+    case F_REQ_S: if (rc.get("bk", 0) & 1) { int k = (a & 1) ? 1024 : 700 + 2 * static_cast<int>(a % 150); obj.reset(new QObj<ReqS, std::string, GreaterLen, 1>(ReqS(static_cast<uint16_t>(k), b & 1), k, b & 1)); break; } { int k = 4 + 2 * static_cast<int>(a % 6); obj.reset(new QObj<ReqS, std::string, GreaterLen, 1>(ReqS(static_cast<uint16_t>(k), b & 1), k, b & 1)); break; }
+    case F_QS_F: if (rc.get("bk", 0) & 1) { int k = 512 << (a % 3); obj.reset(new QObj<QsF, float, std::less<float>, 2>(QsF(static_cast<uint16_t>(k)), k, false)); break; } { int k = 2 << (a % 6); obj.reset(new QObj<QsF, float, std::less<float>, 2>(QsF(static_cast<uint16_t>(k)), k, false)); break; }
+    case F_QS_S: if (rc.get("bk", 0) & 1) { int k = 512 << (a % 3); obj.reset(new QObj<QsS, std::string, GreaterLen, 2>(QsS(static_cast<uint16_t>(k)), k, false)); break; } { int k = 2 << (a % 6); obj.reset(new QObj<QsS, std::string, GreaterLen, 2>(QsS(static_cast<uint16_t>(k)), k, false)); break; }
     case F_FI_I: { uint8_t lg = static_cast<uint8_t>(3 + a % 6); obj.reset(new FiObj<int64_t>(frequent_items_sketch<int64_t>(lg), lg)); break; }
     case F_FI_S: { uint8_t lg = static_cast<uint8_t>(3 + a % 6); obj.reset(new FiObj<std::string>(frequent_items_sketch<std::string>(lg), lg)); break; }
     case F_CM: obj.reset(new CmObj(count_min_sketch<uint64_t>(static_cast<uint8_t>(1 + a % 6), static_cast<uint32_t>(3 + b % 300), seed), seed)); break;
@@ -669,7 +671,8 @@ inline rc::Gen<Case> recipe_gen(rc::Gen<int64_t> famgen) {
   auto mk = rc::gen::map(rc::gen::tuple(nGen, range(0, 7), range(0, 1 << 20), range(0, 63)), [](std::tuple<int64_t, int64_t, int64_t, int64_t> t) { return Op{"mk", {std::get<0>(t), std::get<1>(t), std::get<2>(t), std::get<3>(t)}}; });
   auto ops = oplist(choose({{6, u}, {1, m}, {1, mk}}), 1, 0.05);
   return make_case({{"fam", std::move(famgen)}, {"a", range(0, 1 << 16)}, {"b", range(0, 1 << 16)}, {"c", range(0, 1 << 16)},
-                    {"seed", rc::gen::weightedOneOf<int64_t>({{3, rc::gen::just<int64_t>(0)}, {1, range(1, 1000)}})}, {"rnd", range(1, 1 << 20)}, {"t", range(0, 1)}, {"ls", range(0, 1)}, {"bs", range(0, 1)}, {"hp", rc::gen::weightedOneOf<int64_t>({{2, rc::gen::just<int64_t>(0)}, {1, range(1, 7)}})}},
+                    {"seed", rc::gen::weightedOneOf<int64_t>({{3, rc::gen::just<int64_t>(0)}, {1, range(1, 1000)}})}, {"rnd", range(1, 1 << 20)}, {"t", range(0, 1)}, {"ls", range(0, 1)}, {"bs", range(0, 1)}, {"hp", rc::gen::weightedOneOf<int64_t>({{2, rc::gen::just<int64_t>(0)}, {1, range(1, 7)}})},
+                    {"bk", rc::gen::weightedOneOf<int64_t>({{5, rc::gen::just<int64_t>(0)}, {1, rc::gen::just<int64_t>(1)}})}},
                    ops);
 }
 
